@@ -27,7 +27,7 @@
     returns exactly the segments `[n1, …, nk]` (no class key, no `typename`, no operator) and
     leaves the following token in the stream, whatever `fn_ok` / `compound_ok` / `fund_ok`.
   * `C02_type_name` (`Theorems/TypeName.lean`): `_parse_type` on identifiers `n1 :: … :: nk` followed
-    by a token that starts the declarator returns the type `n1::…::nk` (not const, not volatile, no
+    by a token that starts the declarator (or `;`) returns the type `n1::…::nk` (not const, not volatile, no
     specifiers) and leaves that token in the stream;
   * `C02_declarator_variable` (`Theorems/VarDecl.lean`): one declarator `ptr-ops x` and the `,` / `;`
     after it, outside a class: exactly one `on_variable` whose type is the chain the declarator
@@ -143,7 +143,7 @@ theorem C02_type_name (env : Env) (F D : Nat) (operatorOk : Bool) (ct : CTok) (p
     (hty : ct.type = "NAME") (hpv : plainVal ct.value = true) (hnc : Gen.nameCompoundStart.contains ct.value = false)
     (hall : ∀ p ∈ pairs, p.1.type = "DBL_COLON" ∧ p.2.type = "NAME" ∧ plainVal p.2.value = true)
     (hy : Yields env.cfg w.buf (pairs.flatMap (fun p => [p.1, p.2])) bmid)
-    (htok : tokenEofOk env.cfg bmid = .ok (some term, b')) (hstop : typeStop term.type = true)
+    (htok : tokenEofOk env.cfg bmid = .ok (some term, b')) (hstop : typeEnd term.type = true)
     (hlt : term.type ≠ "<") (hdc : term.type ≠ "DBL_COLON") (hF : pairs.length + 2 ≤ F) :
     ∃ (w' : World) (t' : Tok),
       interp env (parseTypeStep F (core F (D + 1)) (some ct) operatorOk) w =
